@@ -5,6 +5,7 @@ import (
 	"math/big"
 	"strconv"
 
+	enc "github.com/DataDog/sketches-go/ddsketch/encoding"
 	"github.com/DataDog/sketches-go/ddsketch/store"
 )
 
@@ -281,6 +282,47 @@ func (r *Runner) execStore(cmd string, a []string) string {
 			r.oracleFail("reweight-accepted", fmt.Sprintf("%s accepted non-positive factor %s", e.kind, a[1]))
 		}
 		e.truth.Scale(w)
+		return "ok"
+	case "sencdec", "sproto":
+		if len(a) != 2 {
+			return "bad-op"
+		}
+		e, bad := r.getStore(a[0])
+		if e == nil {
+			return bad
+		}
+		o, bad := r.getStore(a[1])
+		if o == nil {
+			return bad
+		}
+		var derr error
+		okp, msg := guard(func() {
+			if cmd == "sproto" {
+				store.MergeWithProto(o.s, e.s.ToProto())
+				return
+			}
+			var b []byte
+			e.s.Encode(&b, enc.FlagTypePositiveStore)
+			for len(b) > 0 && derr == nil {
+				var f enc.Flag
+				f, derr = enc.DecodeFlag(&b)
+				if derr == nil {
+					derr = o.s.DecodeAndMergeWith(&b, f.SubFlag())
+				}
+			}
+		})
+		if !okp {
+			return r.poison(o, cmd, msg)
+		}
+		if derr != nil {
+			r.oracleFail("store-roundtrip", fmt.Sprintf("%s: decoding the store's own encoding failed: %v", e.kind, derr))
+			return "err"
+		}
+		src := e.truth
+		if o == e {
+			src = e.truth.Copy()
+		}
+		o.truth.Merge(src)
 		return "ok"
 	case "sobs":
 		if len(a) != 1 {
